@@ -5,8 +5,57 @@ from common import *
 import fncheck
 
 
-def run(pid, tier, wd, invs=("CheckC14", "CheckDecision")):
-    env = {"TIER": tier, "PROP": pid, "TRACE": os.path.join(wd, "none.ndjson")}
+def run_attack_resilient(cpath, rpath, wd):
+    """Runs `aqua-harness attack`; if the process dies (abort, OOM, stack overflow, timeout) on a case, that case is
+    recorded as died and the run resumes after it. A death of the code under test is data, not a tool error."""
+    import subprocess
+    journal = os.path.join(wd, "journal.txt")
+    parts = []
+    killed = []
+    skip = 0
+    total = sum(1 for _ in open(cpath))
+    for attempt in range(200):
+        part = os.path.join(wd, f"records_part{attempt}.ndjson")
+        cmd = f"ulimit -v 6000000; exec {HARNESS} attack --in {cpath} --out {part} --journal {journal} --skip {skip}"
+        try:
+            p = subprocess.run(["bash", "-c", cmd], stdout=subprocess.PIPE, stderr=subprocess.PIPE, text=True, timeout=1800)
+            rc = p.returncode
+        except subprocess.TimeoutExpired:
+            rc = -9
+        parts.append(part)
+        if rc == 0:
+            break
+        # which case was running
+        try:
+            jl = open(journal).read().split("\n")
+            n = int(jl[0])
+            case = json.loads(jl[1])
+        except Exception:
+            raise ToolError("harness attack died without a journal entry")
+        killed.append(n)
+        with open(part, "a") as f:
+            f.write(json.dumps({"k": "atk", "n": n, "case": case, "applicable": True,
+                                "out": {"code": -1, "died": f"process died (exit {rc})", "eqprev": False, "data": {"trace": [], "lcid": 0, "sigs": []},
+                                        "decodes": False, "msg": "", "nnext": 0}}) + "\n")
+        skip = n
+        if skip >= total:
+            break
+    with open(rpath, "w") as out:
+        for part in parts:
+            if os.path.exists(part):
+                # drop a possibly truncated last line of a part that died
+                for l in open(part, errors='replace'):
+                    if l.endswith("\n"):
+                        try:
+                            json.loads(l)
+                            out.write(l)
+                        except ValueError:
+                            pass
+    return {"cases": total}, killed
+
+
+def run(pid, tier, wd, invs=("CheckC14", "CheckDecision"), family="attack"):
+    env = {"TIER": tier, "PROP": pid, "FAMILY": family, "TRACE": os.path.join(wd, "none.ndjson")}
     open(env["TRACE"], "w").close()
     e = run_tlc("Adversary.tla", fncheck._cfg(wd, "emit_adv.cfg", "EmitSpec", ["EmitCase"]), wd, env=env, workers=4, timeout=1800, heap="8g")
     cases = [m.group(1).replace('\\"', '"') for m in re.finditer(r'<<"CASE", "(.*)">>', e["out"])]
@@ -18,7 +67,7 @@ def run(pid, tier, wd, invs=("CheckC14", "CheckDecision")):
         for c in cases:
             f.write(c + "\n")
     rpath = os.path.join(wd, "records_attack.ndjson")
-    st = run_harness(["attack", "--in", cpath, "--out", rpath])
+    st, killed = run_attack_resilient(cpath, rpath, wd)
     env["TRACE"] = rpath
     v = run_tlc("Adversary.tla", fncheck._cfg(wd, "check_adv.cfg", "CheckSpec", list(invs), "AllExecuted"), wd, env=env, workers=1, timeout=3000, heap="8g")
     if v["rejected"] or not v["completed"] or v["errors"]:
@@ -40,4 +89,4 @@ def run(pid, tier, wd, invs=("CheckC14", "CheckDecision")):
     return {"enumerated_states": e["states"], "cases": len(cases), "applicable": applicable, "victim_returned_new_data": accepted,
             "validated_states": v["states"], "violations": v["violations"], "records": rpath,
             "decision_agree": agree, "decision_differ": [(int(a), int(b)) for a, b in differ][:20], "decision_differ_count": len(differ),
-            "died": died}
+            "died": died, "killed": killed}
